@@ -316,6 +316,10 @@ class TCPPacketGenerator(Device, OutMixIn):
         assert ack.flow_id >= 10000
 
         ackno = ack.ack
+        if ackno < self.last_ack:
+            # a delayed ACK for data that is already acknowledged: cumulative
+            # acknowledgements never move backwards
+            return
         if ackno == self.last_ack:
             self.dupack += 1
         else:
